@@ -59,6 +59,15 @@ def tasks(tier, seed):
         for p in families.corpus(["fitzhughnagumo.ode", "beeler_reuter_1977.ode", "lorentz.ode"]):
             import re as _re
             out.append(dict(p, opts={"stiff": None, "backends": ["numpy"]}))
+    from .. import gen
+    import random as _random
+    for i, p in enumerate(gen.programs(tier, seed, 40, 400, "std")):
+        names = p["meta"]["states"]
+        rr = _random.Random(f"stiff/{p['id']}")
+        S = [s for s in names if rr.random() < 0.5]
+        if rr.random() < 0.2:
+            S.append(rr.choice(p["meta"]["params"] + p["meta"]["inters"] + ["not_a_state"]))   # a name that is no state
+        out.append(dict(p, opts={"stiff": S, "backends": [backends[i % 3]], "delta": [1e-8, 0.05, 0.5, 0.0][i % 4]}))
     return out + witness_tasks(PROP)
 
 
